@@ -26,8 +26,8 @@ CHECKS = {
  "C18": dict(text="Lean theorems findUpwards_nearest and findConfig_spec (chains of any depth: a returned config sits in the closest directory that has a .regal directory or .regal.yaml; both kinds there is the conflict error), fallback_chain (no config: user-level file, else defaults), merge_keeps_defaults / merge_only_overrides / merge_ignore; deviations proved on the model and replayed (conflict_swallowed, empty_regal_dir_shadows: known findings). Tie: exhaustive placements on depth <= 4 through the real FindConfig on temp directories; the real `regal lint` binary with a fake $HOME revealing which config file was applied; merge of generated user configs over the real defaults (every default rule and option kept unless written) and YAML dump/reload.",
              note=TB + "mergo and yaml.v3 are sampled, not modelled beyond levels/ignore; capabilities round trip is a known finding", ref="5/C18",
              technique="Lean 4 proof (induction on the directory chain) + exhaustive differential correspondence + end-to-end oracle"),
- "C16": dict(text="Lean model of splitLines / shortestEditSequence / backtrack / operations / ComputeEdits function by function (V as total function, index bounds separate) and theorems for ALL documents: splitLines_flatten, operations_render (for every good snake chain the emitted operations render `before` into `after`), computeEdits_correct_partial; the remaining obligations (trace invariant => good chain, edits = operations under LSP semantics, totality) are named in the theorem file. Tie: the operation list (field by field, so tie-breaking must match), the edits and the applied result are compared with the real ComputeEdits on 12 000 (quick) / all 131 769 (thorough) pairs over the line alphabet {a,b,empty}<=4 lines with/without final newline plus random realistic pairs; an independent LSP-client applyTextEdits checks 'after' and ordering/bounds.",
-             note=TB + "LSP client semantics as implemented by the harness; proof is partial as stated in Props/C16.lean", ref="5/C16",
+ "C16": dict(text="Lean model of splitLines / shortestEditSequence / backtrack / operations / ComputeEdits function by function (V as a total function Int->Int, index bounds a separate theorem) and theorems for ALL documents of any length: computeEdits_correct (whatever ComputeEdits returns, an LSP client applying the whole-line edits to `before` gets exactly `after`), operations_correct (operations are ordered, non-overlapping and render a into b), proved through the forward invariant of the Myers trace (Lemmas/DiffForward), the backward pass (Lemmas/DiffBack: backtrack yields a good snake chain), the walk (Lemmas/DiffWalk) and edits = operations under the client semantics (Lemmas/DiffEdits); index_in_bounds and line_indices_nonneg show the totalised V and slide hide no Go index panic. Not proved: totality (the search reaches (M,N) within M+N rounds, i.e. ComputeEdits does not panic) - needs Myers' furthest-reaching lemma; a panic would show as a crash in the correspondence run. Tie: the operation list (field by field, so tie-breaking must match), the edits and the applied result are compared with the real ComputeEdits on 12 000 (quick) / all 131 769 (thorough) pairs over the line alphabet {a,b,empty}<=4 lines with/without final newline plus random realistic pairs; an independent LSP-client applyTextEdits checks 'after' and ordering/bounds.",
+             note=TB + "LSP client semantics as implemented by the harness; totality of the search is not proved (see Props/C16.lean)", ref="5/C16",
              technique="Lean 4 proof (induction over the snake walk) + exhaustive differential correspondence"),
  "C13": dict(text="Lean theorems rename_no_overwrite, contents_bijection (after any sequence of Put/Rename the provider's files correspond one-to-one to the originals, paths distinct), rename_candidate_injective_iter + handleRename_terminates_fresh (pigeonhole: a free name within |files|+1 candidates), closest_root_is_ancestor (whole components), writeout_untouched / writeout_written (deletes before writes; untouched paths keep their bytes). Tie: real InMemoryFileProvider op sequences, renameCandidate over a name grammar, FindClosestMatchingRoot exhaustively over sibling-prefix roots, DirCleanUpPaths on temp trees, and the real `regal fix --force` binary (both conflict modes, dry-run) with id-tagged files and a one-to-one oracle.",
              note=TB + "renameCandidate counters below MaxInt64; OS file operations; OPA format preserves comments", ref="5/C13",
